@@ -229,6 +229,7 @@ fn lz_decoder_scripts(rep: &mut Report, rng: &mut Rng, n: u64) {
 }
 
 pub fn run_c07(rep: &mut Report, rng: &mut Rng, thorough: bool) {
+    run_window_exact(rep, &mut rng.fork(), thorough);
     // BCJ2: the four input streams in pieces, the output in reads of 1..7 / 4096 / 70000 bytes
     crate::bcj2::run(rep, rng, thorough);
     lz_decoder_scripts(rep, rng, if thorough { 30000 } else { 3000 });
@@ -468,7 +469,73 @@ pub fn run_c07(rep: &mut Report, rng: &mut Rng, thorough: bool) {
     let _ = (BCJReader::new_x86(&b""[..], 0), 0);
 }
 
+/// size of the encoder's LZ window buffer (`get_buf_size`): extra_before = max(mode's, the LZMA2 writer's 64 KiB - dict)
+fn window_buf_size(dict: usize, normal: bool, lzma2: bool) -> usize {
+    let (eb, ea) = if normal { (4096usize, 4096usize) } else { (1, 272) };
+    let eb = if lzma2 { eb.max(65536usize.saturating_sub(dict)) } else { eb };
+    dict + eb + ea + 273 + (dict / 2 + (256 << 10))
+}
+
+/// inputs exactly as long as the encoder's window buffer (and one byte around it) whose tail is repetitive up to the
+/// last byte: one write leaves the data end on the last byte of the buffer, `write(len - k); write(k)` lets the window
+/// slide first; the bytes must be the same
+fn run_window_exact(rep: &mut Report, rng: &mut Rng, thorough: bool) {
+    for (ci, (normal, bt4, which)) in [(true, true, 0u8), (false, false, 0), (true, false, 3), (false, true, 1), (true, true, 2), (false, true, 0), (true, false, 0)].into_iter().enumerate() {
+        if !thorough && ci >= 5 {
+            break;
+        }
+        let dict: u32 = if which == 1 || which == 2 { 65536 } else { 4096 };
+        let b = window_buf_size(dict as usize, normal, which == 1 || which == 2);
+        for delta in if thorough { vec![-2i64, -1, 0, 1, 2] } else { vec![-1i64, 0, 1] } {
+            let mut r = rng.fork();
+            let len = (b as i64 + delta) as usize;
+            let kind = *r.pick(&["text", "periodic", "runs", "mixed"]);
+            let mut data = gen_data(&mut r, kind, len);
+            // the tail repeats earlier data up to the very last byte
+            let d = r.range(1, 3000) as usize;
+            for k in len - 200..len {
+                data[k] = data[k - d];
+            }
+            let lz = LzOpts { dict, lc: 3, lp: 0, pb: 2, normal, nice: 64, bt4, depth: 8, preset: None };
+            let run = |parts: &[usize]| -> Outcome<Vec<u8>> {
+                match which {
+                    0 => lzma_compress(&data, &lz, LzmaFmt::HeaderMarker, parts),
+                    1 => lzma2_compress(&data, &lz, None, parts, 0),
+                    2 => xz_compress(&data, &XzOpts { lz: lz.clone(), check: 4, block: None, filters: vec![] }, parts, 0),
+                    _ => lzip_compress(&data, &lz, None, parts),
+                }
+            };
+            let name = ["lzma", "lzma2", "xz", "lzip"][which as usize];
+            let detail = |what: &str| json!({"stratum": "window-exact", "writer": name, "opts": lz.json(), "data_kind": kind, "data_len": len, "window_buf_size": b, "tail_distance": d, "data_fnv": fnv(&data), "partition": what});
+            rep.count("stratum.window-exact");
+            match run(&[len]) {
+                Outcome::Ok(x) => {
+                    let mut partitions: Vec<Vec<usize>> = [1usize, 2, 3, 5, 8, 20, 545, 600, 4097].iter().map(|&k| vec![len - k, k]).collect();
+                    partitions.push(vec![1, len - 1]);
+                    partitions.push(vec![len / 2, len - len / 2]);
+                    partitions.push(vec![len - 4370, 4369, 1]);
+                    for parts in partitions {
+                        let what = format!("{parts:?}");
+                        match run(&parts) {
+                            Outcome::Ok(z) => {
+                                if z != x {
+                                    rep.fail(&format!("partition-dependent-bytes:{name}:window-exact"), &format!("input of window-buffer length{delta:+}: partition {what} produced different bytes ({} vs {}) than a single write", z.len(), x.len()), detail(&what));
+                                }
+                            }
+                            other => rep.fail(&format!("partition-{}:{name}", other.class()), &other.describe(), detail(&what)),
+                        }
+                        rep.evaluations += 1;
+                    }
+                }
+                other => rep.fail(&format!("write-{}:{name}", other.class()), &other.describe(), detail("single write")),
+            }
+            rep.case(format!("window-exact:{name}:{normal}:{bt4}:{delta}"), true, || detail("case"));
+        }
+    }
+}
+
 pub fn run_c13(rep: &mut Report, rng: &mut Rng, thorough: bool) {
+    run_window_exact(rep, &mut rng.fork(), thorough);
     let n = if thorough { 1500 } else { 160 };
     let max = if thorough { 1 << 20 } else { 80 << 10 };
     // keep some garbage allocated between runs so that the allocator state differs
